@@ -127,6 +127,27 @@ func Harness_C01_rebuild_equals_live() {
 	case 8:
 		err = v.FS.Chown(name, 7, 8)
 	}
+	if vm.Tier() == "thorough" {
+		// a history of two calls: the second one on a fixed set of names that interact with the first
+		switch vm.Choice("op2", 6) {
+		case 0:
+			v.FS.Mkdir("/d/x", 0o755)
+		case 1:
+			v.FS.Rename("/d/g", "/f")
+		case 2:
+			v.FS.RemoveAll("/d")
+		case 3:
+			v.FS.Chmod("/f", 0o640)
+		case 4:
+			v.FS.Rename("/d", "/t")
+		case 5:
+			h2, e2 := v.FS.Create("/t")
+			if e2 == nil {
+				h2.Write([]byte("q"))
+				h2.Close()
+			}
+		}
+	}
 	r, rerr := c01Rebuild(v)
 	vm.Assert("C01.rebuild_succeeds", rerr == nil)
 	if rerr != nil {
@@ -134,7 +155,7 @@ func Harness_C01_rebuild_equals_live() {
 	}
 	l := v.Env.Metadata
 	rm := config.MetadataConfig{Metadata: r}
-	universe := []string{"/", "/d", "/d/g", "/f", "/t", name, "/d/" + comp, "/" + comp + "/g"}
+	universe := []string{"/", "/d", "/d/g", "/f", "/t", name, "/d/" + comp, "/" + comp + "/g", "/d/x", "/t/g"}
 	for _, u := range universe {
 		vm.Assert("C01.same_view_after_rebuild", c01SameView(l, rm, u))
 	}
